@@ -70,6 +70,50 @@ impl ReadSource for SingleFileSource {
     }
 }
 
+/// What `backup -` / `--stdin-command` really store: the node `ReadSourceEntry::from_path` builds — `Metadata::default()`, i.e.
+/// recorded size 0 (no times, no inode) — with the whole stream as content.
+#[derive(Clone, Debug)]
+pub struct StdinSource {
+    pub name: String,
+    pub content: Vec<u8>,
+}
+impl ReadSource for StdinSource {
+    type Open = std::io::Cursor<Vec<u8>>;
+    type Iter = std::vec::IntoIter<RusticResult<ReadSourceEntry<Self::Open>>>;
+    fn size(&self) -> RusticResult<Option<u64>> {
+        Ok(None)
+    }
+    fn entries(&self) -> Self::Iter {
+        let node = Node::new_node(std::ffi::OsStr::new(&self.name), NodeType::File, Metadata::default());
+        vec![Ok(ReadSourceEntry { path: PathBuf::from(&self.name), node, open: Some(std::io::Cursor::new(self.content.clone())) })].into_iter()
+    }
+}
+
+/// `MemSource` whose file nodes carry a recorded size that is NOT the length of what the archiver reads (a file that was
+/// written between `stat` and the read, `/proc`-like files): path → recorded size.
+#[derive(Clone, Debug)]
+pub struct SizedSource {
+    pub inner: MemSource,
+    pub size_of: BTreeMap<Vec<Vec<u8>>, u64>,
+}
+impl ReadSource for SizedSource {
+    type Open = std::io::Cursor<Vec<u8>>;
+    type Iter = std::vec::IntoIter<RusticResult<ReadSourceEntry<Self::Open>>>;
+    fn size(&self) -> RusticResult<Option<u64>> {
+        Ok(None)
+    }
+    fn entries(&self) -> Self::Iter {
+        // the root first, then `inner.entries` in their order
+        let mut v: Vec<_> = self.inner.entries().collect();
+        for (item, e) in v.iter_mut().skip(1).zip(&self.inner.entries) {
+            if let (Ok(item), Some(sz)) = (item, self.size_of.get(&e.path)) {
+                item.node.meta.size = *sz;
+            }
+        }
+        v.into_iter()
+    }
+}
+
 /// canonical digest of everything below `tree` as read through `ls` + `dump`
 pub fn tree_digest<S: IndexedFull>(repo: &Repository<S>, tree: rustic_core::TreeId) -> Result<String, String> {
     use std::os::unix::ffi::OsStrExt;
@@ -198,6 +242,12 @@ fn blob_tok(it: &mut Interner, pre: &str, b: &IndexBlob) -> String {
 }
 
 pub fn abstract_state(key: &MasterKey, store: &Store) -> Vec<String> {
+    abstract_state_with(key, store, true)
+}
+
+/// `meta`: file nodes carry `:<size>:<links>:<inode>:<device>` (the recorded metadata, which check must not go by);
+/// `false` = the token form of op lines written before these fields existed (corpus)
+pub fn abstract_state_with(key: &MasterKey, store: &Store, meta: bool) -> Vec<String> {
     let mut it = Interner::default();
     let mut out = Vec::new();
     // snapshots
@@ -310,7 +360,11 @@ pub fn abstract_state(key: &MasterKey, store: &Store) -> Vec<String> {
                                                 Some(c) if c.is_empty() => "e".to_string(),
                                                 Some(c) => c.iter().map(|d| it.id(d.to_hex().as_str()).to_string()).collect::<Vec<_>>().join(","),
                                             };
-                                            format!("n:{k}:{st}:{ct}")
+                                            if meta && matches!(n.node_type, NodeType::File) {
+                                                format!("n:{k}:{st}:{ct}:{}:{}:{}:{}", n.meta.size, n.meta.links, n.meta.inode, n.meta.device_id)
+                                            } else {
+                                                format!("n:{k}:{st}:{ct}")
+                                            }
                                         })
                                         .collect();
                                     _ = trees.insert(h, toks);
@@ -444,7 +498,9 @@ pub fn exec(toks: &[&str]) -> String {
     let Some((key, store, expected)) = parse_store(&toks[bar + 1..]) else { return "bad-op".into() };
     let out = crate::util::guarded(move || {
         let h = RepoHandle { be: MemBackend::from_store(store.clone()), hot: None, key: key.clone() };
-        if abstract_state(&key, &store) != abs {
+        // op lines from before the metadata fields (corpus): file-node tokens have 4 fields
+        let old_form = abs.iter().any(|t| t.starts_with("n:f:") && t.split(':').count() == 4);
+        if abstract_state_with(&key, &store, !old_form) != abs {
             return "oracle-fail:abstraction-mismatch".to_string();
         }
         let raw = real_check(&h);
@@ -671,6 +727,125 @@ pub fn build_repo(rng: &mut Rng, stats: &mut Stats, force_stdin: bool) -> Option
     Some(Built { h, expected })
 }
 
+/// data-pack sizes small enough that the contents of different backups / files land in packs of their own
+fn meta_cfg(rng: &mut Rng, stats: &mut Stats) -> (ConfigOptions, bool) {
+    let mut c = ConfigOptions::default();
+    let v2 = rng.chance(2, 3);
+    stats.hit(if v2 { "cfg.v2" } else { "cfg.v1" });
+    if v2 {
+        c.set_compression = Some(*rng.pick(&[0i32, 3, -3]));
+    }
+    if rng.chance(1, 2) {
+        c.set_datapack_size = Some(bytesize::ByteSize(*rng.pick(&[1u64, 2000])));
+        c.set_treepack_size = Some(bytesize::ByteSize(*rng.pick(&[1u64, 500])));
+        stats.hit("cfg.tiny-packs");
+    }
+    c.set_chunker = Some(rustic_core::repofile::Chunker::FixedSize);
+    c.set_chunk_size = Some(bytesize::ByteSize(*rng.pick(&[512u64, 1024, 4096])));
+    (c, !v2)
+}
+
+/// REAL stdin-style snapshots (file node with recorded size 0 and real content — `StdinSource`), two or three of them with
+/// contents of different lengths (one chunk … several chunks), optionally an ordinary tree backup in between; every data pack
+/// of the repository then holds content that only a size-0 node refers to.
+pub fn build_stdin_real(rng: &mut Rng, stats: &mut Stats) -> Option<Built> {
+    let (cfg, v1) = meta_cfg(rng, stats);
+    let h = init_repo(&cfg, v1)?;
+    let n = 2 + rng.below(2) as usize;
+    for k in 0..n {
+        let repo = open_nc(&h).ok()?.to_indexed_ids().ok()?;
+        let len = *rng.pick(&[5usize, 300, 3000, 9000]);
+        let s = StdinSource { name: "stdin".into(), content: rng.bytes(len) };
+        stats.hit(format!("backup.stdin-real.len.{}", Stats::bucket(len)));
+        // `backup -` sets `parent_opts.force` ("for stdin, use no parent"): the node has neither size nor times to compare
+        let bo = BackupOptions::default().parent_opts(rustic_core::ParentOptions::default().force(true));
+        _ = repo.archive(&bo, &s, SnapshotFile::default(), &[PathBuf::from("stdin")]).ok()?;
+        if k == 0 && rng.chance(1, 2) {
+            let repo = open_nc(&h).ok()?.to_indexed_ids().ok()?;
+            let src = tree_source(rng, stats);
+            stats.hit("backup.tree");
+            _ = repo.archive(&BackupOptions::default(), &src, SnapshotFile::default(), &[PathBuf::from(crate::repo::SRC_ROOT)]).ok()?;
+        }
+    }
+    stats.hit("repo.stdin-real(size-0-nodes-with-content)");
+    let expected = all_digests(&h).ok()?;
+    Some(Built { h, expected })
+}
+
+/// Files whose recorded size differs from the length of their content: size 0 with content, size smaller / larger than the
+/// content, an empty file recorded with a size — next to ordinary files; two backups (the second with other contents).
+pub fn build_size_mismatch(rng: &mut Rng, stats: &mut Stats) -> Option<Built> {
+    let (cfg, v1) = meta_cfg(rng, stats);
+    let h = init_repo(&cfg, v1)?;
+    for k in 0..2u64 {
+        let mut es = Vec::new();
+        let mut size_of = BTreeMap::new();
+        let specs: [(&[u8], usize, Option<u64>); 5] =
+            [(b"zero", *rng.pick(&[40usize, 700, 3000]), Some(0)), (b"grew", 2500, Some(1)), (b"shrank", 600, Some(100_000)), (b"empty", 0, Some(10)), (b"plain", 900, None)];
+        for (name, len, rec) in specs {
+            let mut e = SrcEntry::file(&[b"d", name], &rng.bytes(len));
+            e.mtime_s += k as i64;
+            e.ctime_s = e.mtime_s;
+            if let Some(r) = rec {
+                _ = size_of.insert(e.path.clone(), r);
+                stats.hit(if r == 0 { "file.recorded-size-0-with-content" } else if (r as usize) < len { "file.recorded-size-smaller" } else { "file.recorded-size-larger" });
+            }
+            es.push(e);
+        }
+        let src = SizedSource { inner: MemSource::new(es), size_of };
+        let repo = open_nc(&h).ok()?.to_indexed_ids().ok()?;
+        _ = repo.archive(&BackupOptions::default(), &src, SnapshotFile::default(), &[PathBuf::from(crate::repo::SRC_ROOT)]).ok()?;
+    }
+    stats.hit("repo.size-mismatch");
+    let expected = all_digests(&h).ok()?;
+    Some(Built { h, expected })
+}
+
+/// A hardlinked file (two names, links = 2, one inode) that is overwritten IN PLACE between backups: inode and link count
+/// stay, the content is new (2–3 backups; optionally the inode number is reused by a different file in the last one).
+/// (device, inode) identifies a file only within one snapshot.
+pub fn build_hardlink_history(rng: &mut Rng, stats: &mut Stats) -> Option<Built> {
+    let (cfg, v1) = meta_cfg(rng, stats);
+    let h = init_repo(&cfg, v1)?;
+    let n = 2 + rng.below(2);
+    let inode = 77 + rng.below(1000);
+    let deep = rng.chance(1, 2);
+    // an ordinary file that never changes, backed up first on its own: its chunk is stored once, so the data packs of the
+    // following backups hold ONLY the content of the hardlinked file as it was at that time
+    let single = SrcEntry::file(&[b"single"], &rng.bytes(100));
+    {
+        let repo = open_nc(&h).ok()?.to_indexed_ids().ok()?;
+        _ = repo.archive(&BackupOptions::default(), &MemSource::new(vec![single.clone()]), SnapshotFile::default(), &[PathBuf::from(crate::repo::SRC_ROOT)]).ok()?;
+    }
+    for k in 0..n {
+        let len = *rng.pick(&[40usize, 700, 3000]);
+        let c = rng.bytes(len);
+        let reuse = k == n - 1 && n == 3 && rng.chance(1, 2);
+        let names: [&[u8]; 2] = if reuse { [b"other1", b"other2"] } else { [b"f", b"g"] };
+        let mut es = Vec::new();
+        for name in names {
+            // later versions optionally live deeper in the tree (the order in which trees are streamed differs)
+            let path: Vec<&[u8]> = if deep && k > 0 { vec![b"srv", b"backup", b"hosts", b"alpha", name] } else { vec![name] };
+            let mut e = SrcEntry::file(&path, &c);
+            e.inode = inode;
+            e.links = 2;
+            e.mtime_s += k as i64;
+            e.ctime_s = e.mtime_s;
+            es.push(e);
+        }
+        es.push(single.clone());
+        let src = MemSource::new(es);
+        let repo = open_nc(&h).ok()?.to_indexed_ids().ok()?;
+        _ = repo.archive(&BackupOptions::default(), &src, SnapshotFile::default(), &[PathBuf::from(crate::repo::SRC_ROOT)]).ok()?;
+        if reuse {
+            stats.hit("hardlink.inode-reused-by-other-file");
+        }
+    }
+    stats.hit("repo.hardlink-overwritten-in-place");
+    let expected = all_digests(&h).ok()?;
+    Some(Built { h, expected })
+}
+
 fn evolve(src: &MemSource, rng: &mut Rng, k: usize) -> MemSource {
     let mut es = src.entries.clone();
     es.retain(|e| !matches!(e.kind, SrcKind::Dir));
@@ -771,6 +946,9 @@ fn damages(b: &Built, rng: &mut Rng, thorough: bool) -> Vec<(String, Store)> {
             }
             // bit flips: structured positions + random ones
             let mut poss: Vec<usize> = vec![0, 15, 16, n / 2, n.saturating_sub(1), n.saturating_sub(4), n.saturating_sub(5), n.saturating_sub(20)];
+            // positions inside the first and the last blob of a pack: `flip.pack.blob`, never sampled away (EVERY pack that holds
+            // data of any snapshot gets a bit flip inside a blob)
+            let mut blob_poss: Vec<usize> = vec![];
             if ft == FileType::Pack {
                 // inside every blob and inside the header as the index describes them
                 if let Some(p) = index_packs(key, &base).iter().find(|p| p.id.to_hex().as_str() == id.to_hex().as_str()) {
@@ -778,7 +956,22 @@ fn damages(b: &Built, rng: &mut Rng, thorough: bool) -> Vec<(String, Store)> {
                         poss.push(bl.location.offset as usize + bl.location.length as usize / 2);
                         poss.push(bl.location.offset as usize);
                     }
+                    let mut sorted = p.blobs.clone();
+                    sorted.sort_by_key(|b| b.location.offset);
+                    for bl in sorted.first().into_iter().chain(sorted.last()) {
+                        // past the 16-byte nonce, inside the ciphertext
+                        blob_poss.push(bl.location.offset as usize + 16 + (bl.location.length as usize).saturating_sub(32) / 2);
+                    }
+                    blob_poss.sort_unstable();
+                    blob_poss.dedup();
                 }
+            }
+            for p in blob_poss.into_iter().filter(|p| *p < n) {
+                let mut v = data.to_vec();
+                v[p] ^= 1 << rng.below(8);
+                let mut s = base.clone();
+                _ = s.insert(k, Bytes::from(v));
+                out.push(("flip.pack.blob".to_string(), s));
             }
             for _ in 0..(if thorough { 6 } else { 2 }) {
                 poss.push(rng.below(n.max(1) as u64) as usize);
@@ -868,7 +1061,7 @@ pub fn line(label: &str, key: &MasterKey, store: &Store, expected: &BTreeMap<Str
 }
 
 pub fn generate(thorough: bool, rng: &mut Rng, ops: &mut Vec<String>, stats: &mut Stats) {
-    let n_repos = if thorough { 60 } else { 5 };
+    let n_repos = if thorough { 60 } else { 8 };
     let per_repo_cap = if thorough { 300 } else { 110 };
     for r in 0..n_repos {
         // the first repository of every run is the stdin-style one (packs holding only a root tree)
@@ -880,6 +1073,15 @@ pub fn generate(thorough: bool, rng: &mut Rng, ops: &mut Vec<String>, stats: &mu
         } else if r == 3 {
             // … the fourth one reaches a tree only through the subtree of a file node
             build_file_subtree(stats, rng.chance(1, 2))
+        } else if r % 8 == 5 {
+            // real stdin snapshots: nodes with recorded size 0 and real content
+            build_stdin_real(rng, stats)
+        } else if r % 8 == 4 {
+            // a hardlinked file overwritten in place between backups (same inode and link count, new content)
+            build_hardlink_history(rng, stats)
+        } else if r % 8 == 7 {
+            // files whose recorded size is not the length of their content
+            build_size_mismatch(rng, stats)
         } else {
             build_repo(rng, stats, r == 1)
         };
@@ -892,7 +1094,7 @@ pub fn generate(thorough: bool, rng: &mut Rng, ops: &mut Vec<String>, stats: &mu
         let mut ds = damages(&b, rng, thorough);
         // keep the run bounded: sample among bit flips and truncations only (removal, swaps, replacements and
         // index-entry faults are always all kept)
-        let samplable = |l: &str| l.starts_with("flip.") || l.starts_with("truncate.");
+        let samplable = |l: &str| (l.starts_with("flip.") && l != "flip.pack.blob") || l.starts_with("truncate.");
         while ds.len() > per_repo_cap && ds.iter().any(|(l, _)| samplable(l)) {
             let i = rng.below(ds.len() as u64) as usize;
             if samplable(&ds[i].0) {
